@@ -15,7 +15,7 @@
    contravariant components in the frame (for "cub": the Cartesian components the code works with). *)
 EXTENDS Integers, Sequences, FiniteSets, TLC
 
-CONSTANT Variant   \* "code" = what the code does; "tr_or", "star_exact" = plausible wrong variants (sensitivity self-tests)
+CONSTANT Variant   \* "code" = what the code does; "tr_or", "star_exact", "keep_dups" = plausible wrong variants (sensitivity self-tests)
 
 -----------------------------------------------------------------------------
 (* 3x3 integer matrices <<row1, row2, row3>> *)
@@ -82,6 +82,23 @@ Product(lst) == ProductLoop(lst, Len(lst), Identity)
 (* from_string_prod("A*B*C"), the string split at "*" is the sequence names *)
 FromStringProd(fam, names) == Product([k \in 1..Len(names) |-> FromString(fam, names[k])])
 
+(* Rotation(n, axis) / Mirror(axis) for any axis with integer frame coordinates c: characterised, not tabulated.
+   R is a proper isometry of the frame that fixes the axis, has order |n| exactly and turns counter-clockwise about the
+   axis for n > 0 (axis . (v x R v) >= 0 for every v, > 0 for some v; the frames are right-handed so the sign of the
+   determinant of the coordinate columns is the sign of the triple product). *)
+RECURSIVE MatPow(_, _)
+MatPow(R, m) == IF m = 0 THEN I3 ELSE MatMul(R, MatPow(R, m - 1))
+Abs(n) == IF n < 0 THEN -n ELSE n
+Triple(a, v, w) == Det(<<a, v, w>>)
+UnitVecs == {<<1, 0, 0>>, <<0, 1, 0>>, <<0, 0, 1>>}
+Turns(R, c) == {Triple(c, v, MatVec(R, v)) : v \in UnitVecs}
+RotationFixesAxis(R, c) == MatVec(R, c) = c
+RotationOrder(R, n) == MatPow(R, Abs(n)) = I3 /\ \A m \in 1..(Abs(n) - 1) : MatPow(R, m) # I3
+RotationSense(R, n, c) ==
+   IF Abs(n) <= 2 THEN TRUE
+   ELSE IF n > 0 THEN (\A t \in Turns(R, c) : t >= 0) /\ (\E t \in Turns(R, c) : t > 0)
+   ELSE (\A t \in Turns(R, c) : t <= 0) /\ (\E t \in Turns(R, c) : t < 0)
+
 -----------------------------------------------------------------------------
 (* lattices *)
 FrameGram(fam) == IF fam = "cub" THEN I3 ELSE <<<<4, 2, 0>>, <<2, 4, 0>>, <<0, 0, 3>>>>    \* f_i . f_j (scaled)
@@ -115,7 +132,11 @@ ForS1(L, i) == IF i > Len(L) THEN L ELSE ForS1(ForS2(L, i, 1), i + 1)   \* for s
 ClosurePass(L) == ForS1(L, 1)                                      \* one body of `while True`
 RECURSIVE WhileTrue(_)
 WhileTrue(L) == LET L2 == ClosurePass(L) IN IF Len(L2) = Len(L) THEN L2 ELSE WhileTrue(L2)
-InitialList(gens) == IF Len(gens) = 0 THEN <<Identity>> ELSE gens
+(* `for op in generator_list: if op not in sym_list: sym_list.append(op)`: a generator given twice is kept once (first
+   occurrence).  Variant "keep_dups" = the behaviour before repair 36802561 (both copies kept): must-fail variant. *)
+RECURSIVE Dedup(_, _)
+Dedup(gens, acc) == IF gens = <<>> THEN acc ELSE Dedup(Tail(gens), IF InList(gens[1], acc) THEN acc ELSE Append(acc, gens[1]))
+InitialList(gens) == IF Len(gens) = 0 THEN <<Identity>> ELSE IF Variant = "keep_dups" THEN gens ELSE Dedup(gens, <<>>)
 Generate(gens) == WhileTrue(InitialList(gens))                     \* PointGroup(generator_list).symmetries
 (* as_dict() / PointGroup(dictionary=...) *)
 GroupAsDict(G) == [n \in 1..Len(G) |-> SymAsDict(G[n])]
@@ -125,6 +146,8 @@ IndexOrZero(L, s) == IF InList(s, L) THEN CHOOSE k \in 1..Len(L) : Eq(L[k], s) E
 MulTable(G) == [i \in 1..Len(G) |-> [j \in 1..Len(G) |-> IndexOrZero(G, Mul(G[i], G[j]))]]
 
 (* what C09 demands of a list of elements *)
+SameSet(G, H) == /\ \A n \in 1..Len(G) : InList(G[n], H)          \* the same elements, in any order
+                 /\ \A n \in 1..Len(H) : InList(H[n], G)
 Closed(G) == \A i, j \in 1..Len(G) : InList(Mul(G[i], G[j]), G)
 HasIdentity(G) == InList(Identity, G)
 HasInverses(G) == \A i \in 1..Len(G) : \E j \in 1..Len(G) : Mul(G[i], G[j]) = Identity /\ Mul(G[j], G[i]) = Identity
